@@ -26,9 +26,14 @@ type negCall struct {
 	G      bool `json:",omitempty"` // generated from the grammatical pools only (statistics)
 }
 
-type negCase struct{ Calls []negCall }
+type negCase struct {
+	Calls []negCall
+	// Shared: the handler keeps ONE offers buffer and refills it for every call (c.Accepts(buf...)),
+	// instead of passing a fresh slice each time
+	Shared bool `json:",omitempty"`
+}
 
-func doNeg(c *router.Context, k negCall) (ans string, panicked bool) {
+func doNeg(c *router.Context, k negCall, offers []string) (ans string, panicked bool) {
 	defer func() {
 		if p := recover(); p != nil {
 			panicked = true
@@ -41,13 +46,13 @@ func doNeg(c *router.Context, k negCall) (ans string, panicked bool) {
 	}
 	switch k.Kind {
 	case kAccept:
-		ans = c.Accepts(k.Offers...)
+		ans = c.Accepts(offers...)
 	case kCharset:
-		ans = c.AcceptsCharsets(k.Offers...)
+		ans = c.AcceptsCharsets(offers...)
 	case kEncoding:
-		ans = c.AcceptsEncodings(k.Offers...)
+		ans = c.AcceptsEncodings(offers...)
 	default:
-		ans = c.AcceptsLanguages(k.Offers...)
+		ans = c.AcceptsLanguages(offers...)
 	}
 	return
 }
@@ -249,7 +254,7 @@ func genNeg(r *hx.Rand) *negCase {
 		cur[k], gh[k] = genNegHeader(r, k)
 		offers[k], go_[k] = genOffers(r, k)
 	}
-	k := &negCase{}
+	k := &negCase{Shared: r.Chance(1, 2)}
 	for i := 0; i < n; i++ {
 		kind := r.Intn(4)
 		if r.Chance(1, 3) {
@@ -342,15 +347,21 @@ func emitNeg(id string, k *negCase, st *hx.Stats) string {
 	}
 	obs := make([]obsT, len(k.Calls))
 	serve(nil, func(c *router.Context) {
+		buf := make([]string, 0, 8)
 		for i, call := range k.Calls {
-			obs[i].ans, obs[i].p = doNeg(c, call)
+			offers := call.Offers
+			if k.Shared {
+				buf = append(buf[:0], call.Offers...)
+				offers = buf
+			}
+			obs[i].ans, obs[i].p = doNeg(c, call, offers)
 		}
 	})
 	l.Sep().Nat(len(k.Calls))
 	changed := false
 	for i, call := range k.Calls {
 		var fresh obsT
-		serve(nil, func(c *router.Context) { fresh.ans, fresh.p = doNeg(c, call) })
+		serve(nil, func(c *router.Context) { fresh.ans, fresh.p = doNeg(c, call, append([]string(nil), call.Offers...)) })
 		if obs[i].p || fresh.p {
 			l.Tok("P")
 			continue
@@ -363,6 +374,9 @@ func emitNeg(id string, k *negCase, st *hx.Stats) string {
 	if st != nil {
 		st.Case(in[len(id):], negNontrivial(k))
 		st.Count("N")
+		if k.Shared {
+			st.Count("N_shared_offers_buffer")
+		}
 		st.Count("N_calls_" + strconv.Itoa(len(k.Calls)))
 		if changed {
 			st.Count("N_history_dependent")
